@@ -30,6 +30,7 @@ type Unit struct {
 }
 
 type UnitResult struct {
+	LemmaObs []*Oblig
 	Lemmas   []string
 	Unit     string
 	Obs      []*Oblig
@@ -43,7 +44,7 @@ func newExec(ld *Loader, db *ContractDB, pkg *Pkg, cf *ContractFile, specs *Spec
 		tenv: map[string]string{}, typeParams: map[string]bool{}, adts: map[string]adtSpec{}, localSpec: map[string]localSig{},
 		strLits: map[string]Term{}, opts: map[string]string{}, assumed: map[string]bool{},
 		closures: map[types.Object]*ast.FuncLit{}, knownFns: map[string]knownFn{}, tags: map[string]Term{},
-		spawnedRepeatedly: map[*ast.FuncLit]bool{}, usedAfter: map[types.Object]bool{}, wfSeen: map[string]bool{}, typeParamObjs: map[string]*types.TypeParam{}}
+		spawnedRepeatedly: map[*ast.FuncLit]bool{}, usedAfter: map[types.Object]bool{}, wfSeen: map[string]bool{}, typeParamObjs: map[string]*types.TypeParam{}, mapSorts: map[string]string{}}
 	return x
 }
 
@@ -223,8 +224,9 @@ func (x *Exec) makeEnv(sig *types.Signature, recvName string, self Term, entryVa
 }
 
 // verifyUnit runs one unit and returns its obligations.
-func verifyUnit(ld *Loader, db *ContractDB, specs *SpecLib, u *Unit) (res *UnitResult) {
+func verifyUnit(ld *Loader, db *ContractDB, specs *SpecLib, u *Unit, prop string) (res *UnitResult) {
 	x := newExec(ld, db, u.Pkg, u.CF, specs)
+	x.curProp = prop
 	x.unit = u.Name
 	x.props = u.Props
 	res = &UnitResult{Unit: u.Name}
@@ -239,31 +241,32 @@ func verifyUnit(ld *Loader, db *ContractDB, specs *SpecLib, u *Unit) (res *UnitR
 				}
 			}
 		}
-		// lemma library: opted-in lemmas become axioms for every list/trace sort in use
+		// lemma library: opted-in lemmas become axioms for every instantiation of their
+		// template; each instantiated lemma is itself proved by induction from the
+		// definitions (obligation kind speclemma) in the prelude of this unit
+		baseN := len(x.d.order)
+		var lemmaTexts []string
 		for _, ln := range splitList(x.opts["lemmas"]) {
-			found := false
-			for _, so := range sortedKeys(x.d.sorts) {
-				switch x.d.sorts[so].Kind {
-				case "list":
-					if x.d.useLemma("List", ln, so) {
-						found = true
-					}
-				case "trace":
-					if x.d.useLemma("Trace", ln, so) {
-						found = true
-					}
+			texts := x.d.useLemmaAll(ln)
+			known := false
+			for k := range specs.Templates {
+				if strings.HasPrefix(k, "lemma:") && strings.HasSuffix(k, ":"+ln) {
+					known = true
 				}
 			}
-			if _, ok := specs.Templates["lemma:List:"+ln]; ok {
-				found = true
-			}
-			if _, ok := specs.Templates["lemma:Trace:"+ln]; ok {
-				found = true
-			}
-			if !found {
+			if !known {
 				x.problems = append(x.problems, "unknown lemma "+ln)
 			}
-			res.Lemmas = append(res.Lemmas, ln)
+			for _, t := range texts {
+				lemmaTexts = append(lemmaTexts, ln+"\x00"+t)
+			}
+		}
+		basePrelude := strings.Join(x.d.order[:baseN], "\n") + "\n"
+		for _, lt := range lemmaTexts {
+			ln, text, _ := strings.Cut(lt, "\x00")
+			res.LemmaObs = append(res.LemmaObs, &Oblig{Name: "specs.lemma." + ln + ":speclemma", Kind: "speclemma", Props: x.props,
+				Goal: Term{S: text, Sort: "Bool"}, Src: "library lemma " + ln + " follows from the definitions (structural induction): " + firstN(text, 200),
+				Induct: true, Prelude: basePrelude})
 		}
 		res.Obs = x.obs
 		res.Problems = x.problems
@@ -371,6 +374,11 @@ func (x *Exec) funcUnit(u *Unit) {
 		entry[fmt.Sprintf("$%d", i+1)] = t
 	}
 	x.number(decl.Body)
+	// ghost protocol counters of a function start at zero
+	st.ghosts["added"] = tInt(0)
+	st.ghosts["spawned"] = tInt(0)
+	st.ghosts["closerSpawned"] = tFalse
+	st.ghosts["waited"] = tFalse
 	x.runBody(u, st, sig, decl.Body, entry, self, nil)
 }
 
@@ -420,6 +428,9 @@ func (x *Exec) litUnit(u *Unit) {
 		st.assume(tNot(tEq(c, nullRef)))
 		x.chSetFlag(st, "own", c, tTrue)
 		x.chSetFlag(st, "closed", c, tFalse)
+		if u.Proc.Opts["closer"] == "" {
+			x.chSetInt(st, "shares", c, tInt(0))
+		}
 		name, m, tr := x.chTrace(st, "sent", c)
 		st.maps[name] = tStore(m, c, Term{S: "emp_" + tr, Sort: tr})
 	}
@@ -445,6 +456,7 @@ func (x *Exec) litUnit(u *Unit) {
 		st.maps[name] = tStore(m, c, Term{S: "emp_" + tr, Sort: tr})
 		x.chSetFlag(st, "drained", c, tFalse)
 	}
+	x.inGoroutine = true
 	st.ghosts["sawCancel"] = tFalse
 	st.ghosts["sleeps"] = tInt(0)
 	st.ghosts["doneCalls"] = tInt(0)
@@ -536,7 +548,7 @@ func (x *Exec) checkPost(u *Unit, e, entry *State, mk func(*State, bool) *CEnv, 
 	kind := "post"
 	if u.Impl != nil {
 		kind = "subtype"
-		if _, has := u.Impl.Models[u.Method]; has && len(res) == 1 {
+		if _, has := u.Impl.Models[u.Method]; has && len(res) >= 1 {
 			func() {
 				defer func() {
 					if r := recover(); r != nil {
@@ -559,10 +571,22 @@ func (x *Exec) checkPost(u *Unit, e, entry *State, mk func(*State, bool) *CEnv, 
 					}
 					x.oblige(e, "subtype", "model:"+u.Method, tEq(res[0], t), n, "method returns its model: "+u.Impl.Models[u.Method].Src)
 				}
+				for k2 := 1; k2 < len(res); k2++ {
+					nm := fmt.Sprintf("%s#%d", u.Method, k2)
+					if _, has := u.Impl.Models[nm]; !has {
+						continue
+					}
+					if t, ok := x.expandModel(env, env.impl, nm, args); ok {
+						x.oblige(e, "subtype", "model:"+nm, tEq(res[k2], t), n, "method returns its model: "+u.Impl.Models[nm].Src)
+					}
+				}
 			}()
 		}
 	}
 	for i, c := range pc.Ensures {
+		if len(c.Tags) > 0 && x.curProp != "" && !hasProp(c.Tags, x.curProp) {
+			continue // the clause serves other properties
+		}
 		t, err := x.cevalSafe(env, c, "Bool")
 		label := c.Label
 		if label == "" {
